@@ -353,6 +353,18 @@ def make_csr(dom, it, prog, n, rows):
     return o
 
 
+def make_csr_triplets(dom, it, prog, n, rows):
+    """the same matrix through the (rows, columns, vector of (row, column, value) triplets) constructor, the triplets listed row
+    by row in the storage order of `rows`"""
+    ctor = [f for f in prog.fns(CSR + "::SparseMatrixCSR") if len(f["params"]) == 3 and ("tuple" in f["params"][2]["t"] or "triplet" in f["params"][2]["t"])]
+    if len(ctor) != 1:
+        raise ir.AnalysisBroken("anchor vanished: triplet constructor of SparseMatrixCSR")
+    ents = [[i, c, v] for i, r in enumerate(rows) for c, v in r]
+    o = dom.new_object(CSR, None, None)
+    it.call_function(ctor[0], o, [n, n, Cell(ents)])
+    return o
+
+
 def patterns(n):
     off = [(i, j) for i in range(n) for j in range(n) if i != j]
     for bits in itertools.product((0, 1), repeat=len(off)):
@@ -415,10 +427,14 @@ def main(tier):
         zero_variants = [False, True] if (n <= 3 or name in NAMED) else [False]
         if zd:
             orders, zero_variants = ["sorted", "reversed"], [False]
-        for order, with_zeros, rev_iter in itertools.product(orders, zero_variants, (False, True)):
+        for order, with_zeros, rev_iter, via in itertools.product(orders, zero_variants, (False, True), ("arrays", "triplets")):
             if tier == "quick" and n >= 3 and name not in NAMED and (order == "rotated" and rev_iter):
                 continue
-            key = "%s order=%s zeros=%s map-iteration=%s" % (name, order, with_zeros, "reverse" if rev_iter else "insertion")
+            # the container's second construction path (a list of (row, column, value) triplets): with stored zeros, and for
+            # one of the storage orders without
+            if via == "triplets" and not (with_zeros or (order == "reversed" and not rev_iter) or zd):
+                continue
+            key = "%s order=%s zeros=%s map-iteration=%s%s" % (name, order, with_zeros, "reverse" if rev_iter else "insertion", " via=triplets" if via == "triplets" else "")
             n_runs += 1
             ck.instance("R-C16-1", key, nontrivial=(n_runs % 5 == 0 or n >= 3))
             rows = []
@@ -439,7 +455,7 @@ def main(tier):
                 bad = None
                 aborted = False
                 try:
-                    A = make_csr(dom, it, prog, n, rows)
+                    A = (make_csr_triplets if via == "triplets" else make_csr)(dom, it, prog, n, rows)
                     lu = dom.new_object(CLS, None, None)
                     it.call_function(lu_ctor[0], lu, [Cell(A)])
                     # right-hand sides solved one after another with the same object: two generic ones, then vectors with
